@@ -421,14 +421,16 @@ static an<ConfigItem> ResolveReference(ConfigCompiler* compiler,
   if (!resource) {
     DLOG(INFO) << "resource not loaded, compiling: " << reference.resource_id;
     resource = compiler->Compile(reference.resource_id);
-    if (!resource->loaded) {
-      if (reference.optional) {
-        LOG(INFO) << "optional resource not loaded: " << reference.resource_id;
-      } else {
-        LOG(ERROR) << "resource could not be loaded: " << reference.resource_id;
-      }
-      return nullptr;
+  }
+  // also on later references: a resource that failed to load has no nodes,
+  // even if its `.custom` patch would create some
+  if (!resource->loaded) {
+    if (reference.optional) {
+      LOG(INFO) << "optional resource not loaded: " << reference.resource_id;
+    } else {
+      LOG(ERROR) << "resource could not be loaded: " << reference.resource_id;
     }
+    return nullptr;
   }
   return GetResolvedItem(compiler, resource, reference.local_path);
 }
